@@ -119,7 +119,13 @@ Lemma g_is_utf8_continuation_eq b : g_is_utf8_continuation b = is_utf8_continuat
 Proof. reflexivity. Qed.
 
 Lemma g_is_printable_bytes_eq a b : g_is_printable_bytes a b = is_printable_bytes a b.
-Proof. unfold g_is_printable_bytes, is_printable_bytes. rewrite ws_eq. reflexivity. Qed.
+Proof.
+  (* robust to the spelling of the test in Rust (an ==/|| chain, a `match action`, `matches!`):
+     decide it per action *)
+  unfold g_is_printable_bytes, is_printable_bytes. rewrite ?ws_eq.
+  destruct a; vm_compute action_eqb; cbn [andb orb];
+    rewrite ?orb_false_r, ?andb_true_r, ?andb_false_r; reflexivity.
+Qed.
 
 Lemma g_receiver_codepoint_eq r c : g_receiver_codepoint r c = true.
 Proof. reflexivity. Qed.
@@ -180,7 +186,9 @@ Proof.
   match goal with |- context [scan ?f bs1 tt] => rewrite (scan_ext f (ns_take_step st1)) end.
   2:{ intros b []. unfold ns_take_step. rewrite gs_state_change_eq.
       destruct (state_change st1 b) as [[ns a]|]; [|reflexivity].
-      rewrite g_is_printable_bytes_eq, g_is_utf8_continuation_eq. reflexivity. }
+      rewrite g_is_printable_bytes_eq, g_is_utf8_continuation_eq.
+      (* `!(p || c)` or `!p && !c` (De Morgan) *)
+      rewrite ?negb_orb. reflexivity. }
   destruct (scan (ns_take_step st1) bs1 tt) as [[[[] t] bs2]|] eqn:E2; [|reflexivity].
   cbn [fst snd]. rewrite (scan_split _ _ _ _ _ _ E2), split_found.
   destruct t; reflexivity.
